@@ -191,7 +191,7 @@ public:
 // model
 // ------------------------------------------------------------------------------------------------------
 enum class OpKind { None, Log, Flush, InitBt, FlushBt, RemoveBlocking, Other };
-enum class SKind { Normal, Backtrace, BadTemplate, BadSpec, Bomb, BtNoInit, MacroStatic, MacroDynamic, Named, NamedBtNoInit, Dynamic, NamedBacktrace, RuntimeMeta };
+enum class SKind { Normal, Backtrace, BadTemplate, BadSpec, Bomb, BtNoInit, MacroStatic, MacroDynamic, Named, NamedBtNoInit, Dynamic, NamedBacktrace, RuntimeMeta, NamedBadSpec };
 
 inline bool is_bt_kind(SKind k) { return k == SKind::Backtrace || k == SKind::NamedBacktrace; }
 
@@ -371,6 +371,8 @@ constexpr quill::MacroMetadata kMd[] = {
 // unformattable templates (C10)
 constexpr quill::MacroMetadata kMdBadTemplate{"sim.cpp:20", "f", "{}:{}:{} {}", nullptr, quill::LogLevel::Info, quill::MacroMetadata::Event::Log};
 constexpr quill::MacroMetadata kMdBadSpec{"sim.cpp:21", "f", "{}:{}:{:d}", nullptr, quill::LogLevel::Info, quill::MacroMetadata::Event::Log};
+// named arguments whose THIRD value cannot be formatted (:d for a string): the first two values are produced before it fails
+constexpr quill::MacroMetadata kMdNamedBadSpec{"sim.cpp:23", "f", "{a}:{b}:{c:d}", nullptr, quill::LogLevel::Info, quill::MacroMetadata::Event::Log};
 // named-argument statement (same text "w:seq:pad"): the sinks must receive exactly these three pairs, and a later plain
 // statement that reuses the transit slot must receive none
 constexpr quill::MacroMetadata kMdNamed{"sim.cpp:30", "f", "{a}:{b}:{c}", nullptr, quill::LogLevel::Info, quill::MacroMetadata::Event::Log};
